@@ -321,10 +321,12 @@ func (svr *Service) loopLoginUntilSuccess(maxInterval time.Duration, firstLoginE
 			return false, err
 		}
 
+		// Hold the configuration until the new control is published below: a reload in between
+		// would neither be part of this snapshot nor reach the control that replaces svr.ctl.
 		svr.cfgMu.RLock()
+		defer svr.cfgMu.RUnlock()
 		proxyCfgs := svr.proxyCfgs
 		visitorCfgs := svr.visitorCfgs
-		svr.cfgMu.RUnlock()
 		connEncrypted := true
 		if svr.clientSpec != nil && svr.clientSpec.Type == "ssh-tunnel" {
 			connEncrypted = false
